@@ -95,10 +95,11 @@ class IonQNativeTranspiler(CircuitTranspilerProtocol):
 
             elif gate.name == ionq_gate_names.XX:
                 target0, target1 = gate.target_indices
+                theta = gate.params[0]
 
-                if gate.params[0] > 0.0:
+                if self._is_close(theta, 0.25 * np.pi):
                     cg.append(MS(target0, target1, phase[target0], phase[target1]))
-                else:
+                elif self._is_close(theta, -0.25 * np.pi):
                     cg.append(
                         MS(
                             target0,
@@ -107,6 +108,19 @@ class IonQNativeTranspiler(CircuitTranspilerProtocol):
                             (phase[target1] + 0.5) % 1.0,
                         )
                     )
+                else:
+                    raise ValueError(
+                        "Only XX gates with the angle pi/4 or -pi/4 can be converted "
+                        "into MS gates."
+                    )
+
+            elif gate.name == gate_names.Identity:
+                pass
+
+            else:
+                raise ValueError(
+                    f"{gate.name} gate cannot be converted into IonQ native gates."
+                )
 
         cc = QuantumCircuit(circuit.qubit_count)
         cc.extend(cg)
